@@ -208,7 +208,9 @@ func (w *World) checkFailures() {
 					planned = h
 				}
 			}
-			if planned != nil && e.Code == codes.Code(planned.ErrCode).String() {
+			if planned != nil && e.Code == codes.Code(planned.ErrCode).String() && !(e.Code == "Unavailable" && e.Desc != planned.ErrMsg && w.touched(si)) {
+				// (a handler that fails with Unavailable on a node whose connection was hit by a
+				// fault: the entry may just as well be the connection's error - classified below)
 				okMsg := e.Desc == planned.ErrMsg
 				w.rule("C07.handler-status-carried", okMsg)
 				if !okMsg {
